@@ -73,7 +73,7 @@ def showVal : Val → String
   | .flag b => if b then "f1" else "f0"
 
 def showOutcome : Outcome → String
-  | .ok => "ok" | .overread => "overread" | .threwLogic => "logic"
+  | .ok => "ok" | .threwLogic => "logic"
   | .threwError => "error" | .threwInvalid => "invalid"
 
 def showErr : Err → String
@@ -89,7 +89,6 @@ def showSlot (d : OptDecl) (sl : Slot) : String :=
 
 def showResult (cid : String) (decls : List OptDecl) (r : Outcome × St) : String :=
   match r.1 with
-  | .overread => s!"R {cid} overread"
   | o =>
     let st := r.2
     let ret := match o with | .ok => (if st.errs.isEmpty then "1" else "0") | _ => "-"
